@@ -306,6 +306,8 @@ def refract(n, nprime, S, r):
         Sprime, a length 3 vector containing the exitant direction cosines
 
     """
+    # r is the surface gradient as produced by Surface.sag_normal: Snell's law in vector form needs the unit normal
+    r = r / np.sqrt(_multi_dot(r, r))[:, np.newaxis]
     mu = n/nprime
     musq = mu * mu
     cosI = _multi_dot(r, S)
